@@ -231,9 +231,9 @@ Module Ex.
     destruct (Nat.eqb x 0) eqn:E.
     - destruct H.
     - apply Nat.eqb_neq in E.
-      destruct H as [ H | [ H | [] ] ]; injection H as _ <-.
-      + lia.
-      + apply Nat.div_lt; lia.
+      destruct H as [ H | [ H | [] ] ].
+      + assert (Hc : c = x - 1) by congruence. rewrite Hc. lia.
+      + assert (Hc : c = x / 2) by congruence. rewrite Hc. apply Nat.div_lt; lia.
   Qed.
 
   Example ex_sorted : forall p x, StronglySorted le (map fst (cands p x)).
